@@ -1,6 +1,6 @@
 (* Trie/GenerateExample2.v — the example state of Trie/GenerateExample.v meets
    the hypotheses of C11_gen_root / C11_gen_flat (non-vacuity). *)
-From GV Require Import Lib.Tactics Lib.Bytes Trie.Hex Trie.Node Trie.Commit Trie.CommitTracer Trie.ProofProofs Trie.Generate Trie.GenerateWalk Trie.GenerateWalk2 Trie.GenerateRoot Trie.GenerateRoot2 Trie.GenerateExample.
+From GV Require Import Lib.Tactics Lib.Bytes Trie.Hex Trie.Node Trie.Commit Trie.CommitTracer Trie.ProofProofs Trie.Generate Trie.GenerateWalk Trie.GenerateWalk2 Trie.GenerateRoot Trie.GenerateRoot2 Trie.GenerateTotal2 Trie.GenerateSlim2 Trie.GenerateExample.
 Local Open Scope N_scope.
 
 Lemma ex_wf : wf_db ex_db.
@@ -27,3 +27,16 @@ Qed.
 
 Lemma ex_check_true : ex_check = true.
 Proof. vm_compute. reflexivity. Qed.
+
+Lemma ex_success : exists st, fst (generate toy_hash PathScheme ex_expected ex_db) = GOk st.
+Proof.
+  pose proof ex_check_true as E. unfold ex_check in E.
+  destruct (generate toy_hash PathScheme ex_expected ex_db) as [[st|e] db']; [eexists; reflexivity|discriminate].
+Qed.
+
+Lemma ex_total_hyps : decodable toy_hash ex_db /\ live_values ex_db.
+Proof.
+  split.
+  - destruct ex_success as [st E]. exact (success_decodable toy_hash toy_hash_len PathScheme ex_expected ex_db st ex_wf E).
+  - intros kv [<-|[<-|[]]] _; discriminate.
+Qed.
